@@ -91,6 +91,24 @@ def search(payload):
                     fails.append({"p": repr(p), "p_structure": skey(p), "position": i, "value": repr(v), "p(value)": (repr(r) if k == "ok" else f"raises {r}"),
                                   "library_says": repr(call(p, v))})
                     break
+    # collections read a few hundred values deep: elements that are == but of another type (0/False, 1/True, 1.0) next to each other
+    from predicate.standard_predicates import all_p as _all0, is_bool_p as _isbool, is_float_p as _isfloat, is_set_of_p as _setof
+    for p in (_all0(_isbool), _all0(_isbool | is_str_p), _all0(_all0(_isbool)), _all0(is_int_p), _all0(_isfloat), _setof(_isbool), _setof(is_int_p), _all0(eq_p(1)), _all0(eq_p(True))):
+        for seed in range(3):
+            if timeouts >= 3:
+                break
+            random.seed(int(payload["seed"]) * 7 + seed)
+            try:
+                vals, err = g.take(GENF(p), 400, seconds=30.0)
+            except (ValueError, TypeError):
+                continue
+            if err == "timeout":
+                timeouts += 1
+            bad = next((i for i, v in enumerate(vals) if call(p, v) != ("ok", False)), None)
+            n += len(vals)
+            if bad is not None:
+                fails.append({"p": repr(p), "p_structure": skey(p), "position": bad, "value": repr(vals[bad])[:200], "p(value)": repr(call(p, vals[bad])), "seed": seed})
+                break
     # quantifiers nested 8 deep: slow (seconds per value), so only the first value of one stream each is read
     from predicate.standard_predicates import all_p as _all, any_p as _any
     for outer, leaf in ((_all, is_int_p), (_all, ge_p(3)), (_any, is_str_p)):
